@@ -660,6 +660,9 @@ func (c *SpecCtx) call(e *ast.CallExpr) *Val {
 				if v.T.sort == SStr {
 					return intV(StrLen(v.T))
 				}
+				if v.Typ == nil {
+					c.fail("len of a value of unknown type (lastarg of a call that does not happen on this path? guard the clause with implies(ncalls(..) == 1, ..))")
+				}
 				if mt, ok := v.Typ.Underlying().(*types.Map); ok {
 					root := "M|" + mapKeySort(mt) + "|" + typeKey(mt)
 					var arr *Term
@@ -812,6 +815,14 @@ func (c *SpecCtx) call(e *ast.CallExpr) *Val {
 			return boolV(StrPrefixOf(c.eval(e.Args[0]).T, c.eval(e.Args[1]).T))
 		case "strsuffix":
 			return boolV(StrSuffixOf(c.eval(e.Args[0]).T, c.eval(e.Args[1]).T))
+		case "sinkarg":
+			// sinkarg(i): argument i of the call a sink guard is being checked for (0 = receiver
+			// for methods)
+			i := int(c.eval(e.Args[0]).T.lit.Int64())
+			if x.sinkArgs == nil || i >= len(x.sinkArgs) || x.sinkArgs[i] == nil {
+				c.fail("sinkarg(%d) is only available in sink clauses", i)
+			}
+			return x.sinkArgs[i]
 		case "strlastindex":
 			// strlastindex(s, sep): what strings.LastIndex(s, sep) returns (same function symbol
 			// and defining axioms as the program model)
